@@ -130,6 +130,14 @@ func (o c07Op) enc() string {
 		return fmt.Sprintf("%s,%d,%d", o.K, o.H, o.P)
 	case "sr", "sg", "sp":
 		return fmt.Sprintf("%s,%d,%s", o.K, o.P, hx(o.S))
+	case "xr": // Reference.Set(SN, S): "*" means the empty name, otherwise SetName (fix C07-12)
+		n := o.S
+		if n == "*" {
+			n = ""
+		}
+		return fmt.Sprintf("sr,%d,%s", o.P, hx(n))
+	case "xg": // ReadGroup.Set(ID, S) = SetName
+		return fmt.Sprintf("sg,%d,%s", o.P, hx(o.S))
 	case "gr", "gg", "gp":
 		return fmt.Sprintf("%s,%d,%d", o.K, o.H, o.I)
 	case "cr", "cg", "cp":
@@ -251,6 +259,8 @@ type c07Step struct {
 	links  [][]*sam.Reference
 	merged *sam.Header
 	srcs   []*sam.Header
+	preLen map[string]int // um/hd: name -> length of the references present (or given) before the call
+	target *sam.Header    // um/hd: the header parsed into
 }
 
 // apply runs one operation on the implementation.  Every operation allocates a fixed number of handles
@@ -278,10 +288,15 @@ func (w *c07World) apply(op c07Op) (st c07Step) {
 				return
 			}
 			w.hs = append(w.hs, nil)
+			st.preLen = map[string]int{}
+			for _, r := range rs {
+				st.preLen[r.Name()] = r.Len()
+			}
 			h, e := sam.NewHeader([]byte(op.S), rs)
 			err = e
 			if e == nil {
 				w.hs[len(w.hs)-1] = h
+				st.target = h
 			}
 		case "pa":
 			h, _ := sam.NewHeader(nil, nil)
@@ -296,6 +311,10 @@ func (w *c07World) apply(op c07Op) (st c07Step) {
 			if h == nil {
 				skip = true
 				return
+			}
+			st.preLen, st.target = map[string]int{}, h
+			for _, r := range h.Refs() {
+				st.preLen[r.Name()] = r.Len()
 			}
 			err = h.UnmarshalText([]byte(op.S))
 		case "co":
@@ -360,20 +379,28 @@ func (w *c07World) apply(op c07Op) (st c07Step) {
 			} else {
 				err = h.RemoveProgram(p)
 			}
-		case "sr":
+		case "sr", "xr":
 			r := w.ref(op.P)
 			if r == nil {
 				skip = true
 				return
 			}
-			err = r.SetName(op.S)
-		case "sg":
+			if op.K == "xr" {
+				err = r.Set(sam.NewTag("SN"), op.S)
+			} else {
+				err = r.SetName(op.S)
+			}
+		case "sg", "xg":
 			g := w.rg(op.P)
 			if g == nil {
 				skip = true
 				return
 			}
-			err = g.SetName(op.S)
+			if op.K == "xg" {
+				err = g.Set(sam.NewTag("ID"), op.S)
+			} else {
+				err = g.SetName(op.S)
+			}
 		case "sp":
 			p := w.pg(op.P)
 			if p == nil {
@@ -557,6 +584,9 @@ func (w *c07World) obs(st c07Step, verbose bool) string {
 // oracle (implementation judged directly, no model involved)
 
 type c07Fail struct{ sig, what string }
+
+// soft failures are recorded classes that do not end the history (the header stays usable)
+func (f *c07Fail) soft() bool { return strings.HasPrefix(f.sig, "c07.rt.text.unrepresentable") }
 
 var c07RefNames = []string{"chr1", "chr2", "a", "b", "X", "MT"}
 var c07RGNames = []string{"g1", "g2", "g3", "lib", "x", "rg é"}
@@ -876,10 +906,58 @@ func (w *c07World) probeTables(tag string, h *sam.Header, names, gnames, pnames 
 	return f
 }
 
+// c07Unrepresentable: a header that holds a TAB / LF / CR in a tag or value (through SetName, NewReference, a
+// comment, or a line ending in "\r\r\n") has no faithful text form.  The text round trip is still evaluated; when
+// it is not stable the failure is recorded under its own signature (a listed finding) and the history goes on.
+func c07Unrepresentable(tag string, h *sam.Header) *c07Fail {
+	cls := "cr"
+	chk := func(t sam.Tag, v string) {
+		if strings.ContainsAny(v, "\t\n") || strings.ContainsAny(t.String(), "\t\n\r") || strings.Contains(strings.TrimRight(v, "\r"), "\r") {
+			cls = "tab"
+		}
+	}
+	h.Tags(chk)
+	for _, r := range h.Refs() {
+		r.Tags(chk)
+	}
+	for _, r := range h.RGs() {
+		r.Tags(chk)
+	}
+	for _, r := range h.Progs() {
+		r.Tags(chk)
+	}
+	for _, c := range h.Comments {
+		if strings.Contains(c, "\n") || strings.Contains(strings.TrimRight(c, "\r"), "\r") {
+			cls = "tab"
+		}
+	}
+	t1, _, p := c07Marshal(h)
+	if p {
+		return &c07Fail{sig: "c07.marshal.panic", what: tag + "MarshalText/MarshalBinary panicked"}
+	}
+	var t2 []byte
+	var err error
+	o := guard(func() {
+		h2 := &sam.Header{}
+		if err = h2.UnmarshalText(t1); err == nil {
+			t2, _ = h2.MarshalText()
+		}
+	})
+	if o.panicked {
+		return &c07Fail{sig: "c07.rt.text.panic:" + topRepoFrame(o.stack), what: tag + "parsing the header's own text panicked: " + o.panicVal}
+	}
+	if err == nil && bytes.Equal(t1, t2) {
+		return nil
+	}
+	x, y := c07FirstDiffLine(t1, t2)
+	return &c07Fail{sig: "c07.rt.text.unrepresentable." + cls,
+		what: tag + fmt.Sprintf("a value holding TAB/LF/CR has no faithful text form: %q -> %q (err=%v)", x, y, err)}
+}
+
 // c07RoundTrips: marshal ∘ parse ∘ marshal = marshal for text and binary, and equal exposed values.
 func c07RoundTrips(tag string, h *sam.Header) *c07Fail {
 	if !c07HeaderClean(h) {
-		return nil
+		return c07Unrepresentable(tag, h)
 	}
 	if h.Version == "" {
 		hasHD := h.SortOrder != sam.UnknownOrder || h.GroupOrder != sam.GroupUnspecified
@@ -958,6 +1036,19 @@ func (w *c07World) checkStep(op c07Op, st c07Step) (fs []*c07Fail) {
 	}
 	if f := w.checkLinks(st); f != nil {
 		fs = append(fs, f)
+	}
+	// parsing (additional) lines never changes the length of a reference that was there before
+	if st.res == "ok" && st.target != nil {
+		now := map[string]int{}
+		for _, r := range st.target.Refs() {
+			now[r.Name()] = r.Len()
+		}
+		for n, l := range st.preLen {
+			if l2, ok := now[n]; ok && l2 != l {
+				fs = append(fs, &c07Fail{"c07.parse.len-changed", fmt.Sprintf("reference %q had length %d before the lines were parsed and has %d now; no error was returned", n, l, l2)})
+				break
+			}
+		}
 	}
 	if f := w.checkReuse(op, st); f != nil {
 		fs = append(fs, f)
@@ -1045,8 +1136,9 @@ func (w *c07World) checkReuse(op c07Op, st c07Step) *c07Fail {
 // running a history
 
 type c07Run struct {
-	obs     []string // compact observation per op
-	fails   []*c07Fail
+	obs     []string   // compact observation per op
+	fails   []*c07Fail // hard failures of the step that ended the history
+	softs   []*c07Fail // soft failures, one per signature
 	failAt  int
 	nExec   int
 	classes map[string]int
@@ -1056,6 +1148,7 @@ func c07Exec(ops []c07Op, oracle bool, verboseAt int) (run c07Run, verbose strin
 	w := &c07World{}
 	run.failAt = -1
 	run.classes = map[string]int{}
+	softSeen := map[string]bool{}
 	for i, op := range ops {
 		st := w.apply(op)
 		run.classes[op.K+"."+st.res]++
@@ -1068,11 +1161,20 @@ func c07Exec(ops []c07Op, oracle bool, verboseAt int) (run c07Run, verbose strin
 		}
 		if oracle {
 			if fs := w.checkStep(op, st); len(fs) > 0 {
+				var hard []*c07Fail
 				for _, f := range fs {
 					f.sig += "@" + op.K
+					if !f.soft() {
+						hard = append(hard, f)
+					} else if !softSeen[f.sig[:strings.Index(f.sig, "@")]] {
+						softSeen[f.sig[:strings.Index(f.sig, "@")]] = true
+						run.softs = append(run.softs, f)
+					}
 				}
-				run.fails, run.failAt = fs, i
-				return
+				if len(hard) > 0 {
+					run.fails, run.failAt = hard, i
+					return
+				}
 			}
 		}
 		if st.res == "panic" {
@@ -1083,7 +1185,7 @@ func c07Exec(ops []c07Op, oracle bool, verboseAt int) (run c07Run, verbose strin
 }
 
 func (r *c07Run) has(sig string) *c07Fail {
-	for _, f := range r.fails {
+	for _, f := range append(append([]*c07Fail(nil), r.fails...), r.softs...) {
 		if f.sig == sig {
 			return f
 		}
@@ -1148,9 +1250,9 @@ func c07Uses(o *c07Op) (ns []byte, ps []*int) {
 	case "ap", "rp":
 		add('h', &o.H)
 		add('p', &o.P)
-	case "sr", "cr":
+	case "sr", "cr", "xr":
 		add('r', &o.P)
-	case "sg", "cg":
+	case "sg", "cg", "xg":
 		add('g', &o.P)
 	case "sp", "cp":
 		add('p', &o.P)
@@ -1362,7 +1464,7 @@ var c07PGTags = []string{"PN", "CL", "PP", "VN"}
 // date forms the parser accepts besides the canonical one
 func (g *c07Gen) looseDate() string {
 	d := g.date() // 2006-01-02T15:04:05-0700
-	switch g.r.intn(8) {
+	switch g.r.intn(9) {
 	case 0:
 		return d[:10]
 	case 1:
@@ -1377,8 +1479,26 @@ func (g *c07Gen) looseDate() string {
 		return strings.ReplaceAll(d[:10], "-", "") + "T" + strings.ReplaceAll(d[11:19], ":", "") + d[19:]
 	case 6:
 		return d[:19] + ".5Z"
+	case 7:
+		return d[:19] + "-0000" // a zero offset is printed as +0000
 	}
 	return d
+}
+
+// knownRefLine: an @SQ line for a name the header already has — same length with more fields, another length,
+// no LN at all, only SN.
+func (g *c07Gen) knownRefLine(r *sam.Reference) string {
+	switch g.r.intn(5) {
+	case 0:
+		return fmt.Sprintf("@SQ\tSN:%s\tLN:%d\tAS:%s", r.Name(), r.Len(), "hs37")
+	case 1:
+		return fmt.Sprintf("@SQ\tSN:%s\tLN:%d", r.Name(), r.Len()%1000+1)
+	case 2:
+		return fmt.Sprintf("@SQ\tSN:%s\tAS:x", r.Name())
+	case 3:
+		return fmt.Sprintf("@SQ\tSN:%s\tSP:x\tXX:y", r.Name())
+	}
+	return fmt.Sprintf("@SQ\tSN:%s\tLN:%d", r.Name(), r.Len())
 }
 
 func (g *c07Gen) rgLine(s *c07RG) string {
@@ -1415,6 +1535,7 @@ func (g *c07Gen) pgLine(s *c07PG) string {
 }
 
 var c07BadLines = []string{
+	"@SQ\tSN:a\tAS:x", "@SQ\tSN:chr1\tSP:x", "@SQ\tSN:b\tLN:7", "@SQ\tSN:a\tLN:10\tAS:x\r\r",
 	"@HD\tV", "@SQ\tSN:a\tL", "@RG\tID", "@PG\tI", "@SQ\tSN:a", "@SQ\tLN:10", "@SQ\tSN:a\tLN:ten", "@SQ\tSN:a\tLN:0",
 	"@SQ\tSN:a\tLN:2147483648", "@SQ\tSN:a\tLN:10\tLN:10", "@SQ\tSN:q\tLN:10\tM5:00", "@SQ\tSN:q\tLN:10\tM5:zz000000000000000000000000000000",
 	"@SQ\tSN:q\tLN:10\tM5:000000000000000000000000000000000000", "@SQ\tSN:q\tLN:10\tUR::foo", "@RG\tCN:x", "@RG\tID:q\tDT:yesterday",
@@ -1592,11 +1713,18 @@ func c07Generate(r *Rand, maxOps int, canonURI bool) *c07Gen {
 			if r.coin(1, 30) {
 				nm = ""
 			}
+			kind := "sr"
+			if r.coin(1, 3) { // the same rename through Reference.Set(SN, …)
+				kind = "xr"
+				if nm == "" {
+					nm = "*"
+				}
+			}
 			if n := len(H.Refs()); n > 0 && r.coin(1, 2) {
 				g.emit(c07Op{K: "gr", H: h, I: r.intn(n)})
-				g.emit(c07Op{K: "sr", P: len(g.w.refs) - 1, S: nm})
+				g.emit(c07Op{K: kind, P: len(g.w.refs) - 1, S: nm})
 			} else if len(g.w.refs) > 0 {
-				g.emit(c07Op{K: "sr", P: pickObj(len(g.w.refs)), S: nm})
+				g.emit(c07Op{K: kind, P: pickObj(len(g.w.refs)), S: nm})
 			}
 		case k < 42:
 			g.emit(c07Op{K: "ng", RG: g.rgSpec()})
@@ -1616,11 +1744,15 @@ func c07Generate(r *Rand, maxOps int, canonURI bool) *c07Gen {
 			}
 		case k < 54:
 			nm := c07RGNames[r.intn(len(c07RGNames))]
+			kind := "sg"
+			if r.coin(1, 3) {
+				kind = "xg"
+			}
 			if n := len(H.RGs()); n > 0 && r.coin(1, 2) {
 				g.emit(c07Op{K: "gg", H: h, I: r.intn(n)})
-				g.emit(c07Op{K: "sg", P: len(g.w.rgs) - 1, S: nm})
+				g.emit(c07Op{K: kind, P: len(g.w.rgs) - 1, S: nm})
 			} else if len(g.w.rgs) > 0 {
-				g.emit(c07Op{K: "sg", P: pickObj(len(g.w.rgs)), S: nm})
+				g.emit(c07Op{K: kind, P: pickObj(len(g.w.rgs)), S: nm})
 			}
 		case k < 60:
 			g.emit(c07Op{K: "np", PG: g.pgSpec()})
@@ -1659,8 +1791,15 @@ func c07Generate(r *Rand, maxOps int, canonURI bool) *c07Gen {
 				}
 				g.emit(c07Op{K: "mg", Hs: hs})
 			}
-		case k < 88: // additional lines
-			g.emit(c07Op{K: "um", H: h, S: g.text(H.Version == "" && r.coin(1, 2), r.coin(1, 4))})
+		case k < 88: // additional lines; often about a reference the header already has
+			txt := g.text(H.Version == "" && r.coin(1, 2), r.coin(1, 4))
+			if n := len(H.Refs()); n > 0 && r.coin(1, 3) {
+				if txt != "" && !strings.HasSuffix(txt, "\n") {
+					txt += "\n"
+				}
+				txt += g.knownRefLine(H.Refs()[r.intn(n)]) + "\n" // last, so that an error does not hide the other lines
+			}
+			g.emit(c07Op{K: "um", H: h, S: txt})
 		case k < 90:
 			if len(g.w.hs) < 6 {
 				g.emit(c07Op{K: "pa", S: g.text(r.coin(3, 4), r.coin(1, 5))})
@@ -1720,7 +1859,7 @@ func c07Nontrivial(ops []c07Op, cls map[string]int) bool {
 	for k, n := range cls {
 		if strings.HasSuffix(k, ".ok") {
 			switch k[:2] {
-			case "rr", "rg", "rp", "sr", "sg", "sp", "cl", "mg", "um":
+			case "rr", "rg", "rp", "sr", "sg", "sp", "xr", "xg", "cl", "mg", "um":
 				edits += n
 			}
 		}
@@ -1746,7 +1885,7 @@ func c07One(c *ctx, ops []c07Op, d *Driver, impl *[]string, hists *[][]c07Op) {
 	}
 	r.eval(c07Key(ops), c07Nontrivial(ops, run.classes))
 	r.hist(fmt.Sprintf("history.len%02d-%02d", len(ops)/10*10, len(ops)/10*10+9))
-	for _, f := range run.fails {
+	for _, f := range append(append([]*c07Fail(nil), run.fails...), run.softs...) {
 		small := ops
 		if c.replay == "" {
 			small = c07Shrink(ops, f.sig)
@@ -1854,6 +1993,16 @@ func c07Corpus() [][]c07Op {
 		{{K: "h0"}, {K: "ng", RG: &c07RG{Name: "g1"}}, {K: "ag", H: 0, P: 0}, {K: "rg", H: 0, P: 0}},
 		// NewHeader with references, then the same name again
 		{{K: "nr", Ref: ref("a", 10)}, {K: "hd", Hs: []int{0}}, {K: "nr", Ref: ref("a", 11)}, {K: "ar", H: 0, P: 1}},
+		// @SQ line without LN for a known name (audit M-1); another length for a known name
+		{{K: "h0"}, {K: "um", H: 0, S: "@SQ\tSN:a\tLN:10\n"}, {K: "um", H: 0, S: "@SQ\tSN:a\tAS:x\n"}},
+		{{K: "h0"}, {K: "um", H: 0, S: "@SQ\tSN:a\tLN:10\n"}, {K: "um", H: 0, S: "@SQ\tSN:a\tLN:20\n"}},
+		{{K: "nr", Ref: ref("a", 10)}, {K: "hd", S: "@SQ\tSN:a\tLN:20\n", Hs: []int{0}}},
+		// rename through Set(SN) onto a name that is taken (audit M-2)
+		{{K: "pa", S: "@SQ\tSN:a\tLN:10\n@SQ\tSN:b\tLN:10\n"}, {K: "gr", H: 0, I: 1}, {K: "xr", P: 0, S: "a"}},
+		{{K: "pa", S: "@RG\tID:g1\n@RG\tID:g2\n"}, {K: "gg", H: 0, I: 1}, {K: "xg", P: 0, S: "g1"}},
+		// a value ending in CR; a name with a TAB: no faithful text form (listed finding)
+		{{K: "pa", S: "@SQ\tSN:a\tLN:10\tAS:x\r\r\n"}},
+		{{K: "h0"}, {K: "nr", Ref: ref("na\tme", 10)}, {K: "ar", H: 0, P: 0}},
 		// scheme-less URI
 		{{K: "h0"}, {K: "nr", Ref: &c07Ref{Name: "a", Len: 10, UR: "/data/a.fa"}}, {K: "ar", H: 0, P: 0}},
 	}
